@@ -40,19 +40,18 @@ def random_items(seed, n):
 
 
 def run(ctx):
-    ctx.mc("text", MODULE, "MC_LocaleFmt.cfg", overrides={"MaxDigits": ctx.pick(6, 8)},
+    ctx.mc("text", MODULE, "MC_LocaleFmt.cfg", timeout=ctx.pick(900, 1500), overrides={"MaxDigits": ctx.pick(6, 8)},
            required_actions=["Digit", "Pick"])
     nd = ctx.pick(7, 8)
-    states = ctx.gen_states("text", MODULE, "Gen_LocaleFmt.cfg",
+    states = ctx.gen_states("text", MODULE, "Gen_LocaleFmt.cfg", timeout=ctx.pick(900, 1500),
                             overrides={"MaxDigits": nd, "Digits": ctx.pick("{0, 1, 9}", "{0, 1, 5, 9}")})
     paths, rel_items = td.paths_from_states(states)
     ctx.replay(paths, td.make_replayer(MODULE))
     rel_traces = td.record(MODULE, rel_items)
-    td.validate_calls(ctx, MODULE, "Trace_LocaleFmt", "Trace_LocaleFmt.cfg", rel_traces, label="s2c-rel")
     ctx.cov["exhaustive"] = True
     items = random_items(ctx.seed * 7919 + 46, ctx.pick(600, 20000))
     traces = td.record(MODULE, items)
-    td.validate_calls(ctx, MODULE, "Trace_LocaleFmt", "Trace_LocaleFmt.cfg", traces)
+    td.validate_both(ctx, MODULE, "Trace_LocaleFmt", "Trace_LocaleFmt.cfg", rel_traces, traces)
     ctx.cov["rule"] = ("numbers: every integer of <= %d digits over the digit table, both signs; dates: every offset of the "
                        "threshold table (70 offsets, past and future) x relative x shorter x full_format x 4 argument forms x 2 "
                        "gmt offsets; plus seeded random integers and offsets validated by TLC" % nd)
